@@ -20,7 +20,9 @@ def suite(wt):
     """Runs the baseline suite; packages that fail are retried alone up to 3 times."""
     failed = []
     for mod in (".", "internal/dnsserver"):
-        rc, out = sh("go test -vet=off -count=1 -timeout 25m ./... 2>&1", os.path.join(wt, mod))
+        # A private network namespace avoids "address already in use" flakes caused by
+        # other jobs on this host (the suite binds fixed/ephemeral loopback ports).
+        rc, out = sh("unshare -n sh -c 'ip link set lo up; ip route add default dev lo; go test -vet=off -count=1 -timeout 25m ./... 2>&1'", os.path.join(wt, mod))
         if rc != 0:
             for m in re.finditer(r"^(?:FAIL|---\s+FAIL.*\n.*)?\s*FAIL\s+(\S+)\s+[\d.]+s$", out, re.M):
                 failed.append((mod, m.group(1)))
@@ -30,7 +32,7 @@ def suite(wt):
     for mod, pkg in sorted(set(failed)):
         ok = False
         for _ in range(3):
-            rc, out = sh(f"go test -vet=off -count=1 {pkg} 2>&1", os.path.join(wt, mod))
+            rc, out = sh(f"unshare -n sh -c 'ip link set lo up; ip route add default dev lo; go test -vet=off -count=1 {pkg} 2>&1'", os.path.join(wt, mod))
             if rc == 0:
                 ok = True
                 break
